@@ -28,7 +28,8 @@ var filters = []string{"a/b/", "b/a/", "a/a/", "b/b/", "x/x/y/", "y/", "a/", "a/
 var probes = []string{"a/b/", "b/a/", "a/a/", "b/b/", "c/c/", "x/x/y/", "y/", "a/", "a/b/c/", "x/x/", "presence/q/",
 	// names that differ only in case, only after a long common prefix, or only in a punctuation character
 	"Case/x/", "case/x/", "averyveryverylongchannellevelname-1/", "averyveryverylongchannellevelname-2/", "user.name/", "user_name/"}
-var mqttFilters = []string{"a/b/", "b/a/", "a/+/", "a/#/", "a/", "#/"}
+// "b/#" is the MQTT-native spelling (no trailing slash) of a multi-level wildcard filter
+var mqttFilters = []string{"a/b/", "b/a/", "a/+/", "a/#/", "a/", "#/", "b/#"}
 
 type opDesc struct {
 	Kind   string // sub unsub link badsub badunsub badparse
